@@ -457,7 +457,7 @@ func execC32(t *testing.T, scAny any, keepLog bool) *Outcome {
 func panicSite(stack string) string {
 	lines := splitLines(stack)
 	for i, l := range lines {
-		if len(l) > 0 && l[0] == '\t' && containsStr(l, "/repo/") {
+		if len(l) > 0 && l[0] == '\t' && containsStr(l, kit.RepoPrefix()) {
 			// the function name is on the previous line
 			fn := ""
 			if i > 0 {
